@@ -36,6 +36,37 @@ func main() {
 		}
 		return
 	}
+	if *prop == "all" {
+		// one load, every property: used by the mutation/variant sweeps (evidence goes to -verif)
+		p, err := core.Load(*repo)
+		if err != nil {
+			fmt.Printf("ERROR %v\n", err)
+			for _, id := range rules.IDs() {
+				fmt.Printf("VIOLATION property=%s replay=%s/evidence/replay/%s-load.json\n", id, *verif, id)
+			}
+			os.Exit(1)
+		}
+		seed, _ := strconv.Atoi(os.Getenv("VERIF_SEED"))
+		worst := 0
+		for _, id := range rules.IDs() {
+			r := rules.Get(id)
+			func() {
+				defer func() {
+					if e := recover(); e != nil {
+						fmt.Printf("ERROR analyser panic in %s: %v\n%s\n", id, e, debug.Stack())
+						fmt.Printf("VIOLATION property=%s replay=%s/evidence/replay/%s-panic.json\n", id, *verif, id)
+						worst = 1
+					}
+				}()
+				c := core.NewCtx(id, *tier, p)
+				r.Run(c)
+				if code := c.Finish(*verif, seed, r.Explanation, r.Trusted); code > worst {
+					worst = code
+				}
+			}()
+		}
+		os.Exit(worst)
+	}
 	r := rules.Get(*prop)
 	if r == nil {
 		fmt.Printf("ERROR unknown property %q\n", *prop)
